@@ -257,3 +257,10 @@ EXHAUSTIVE = {
     "C18": "every (year, month, day) accepted by Date::new and every (hour, minute, second, 10 ms step)",
     "C01": "thorough: all 118^3 three-operation sequences on FAT12, FAT16 and FAT32",
 }
+
+LEVEL_TEXT["C01"] += " Bounded-exhaustive part (c01enum): every sequence of three operations over a 118-op alphabet from an empty volume, exhaustive in the thorough tier. Fill workloads drive tiny fixed roots and tiny volumes to full."
+LEVEL_TEXT["C02"] += " Also through the std::io face of File (write_all / read_exact / read_to_end / seek) on StdIoWrapper<Cursor<Vec<u8>>>."
+LEVEL_TEXT["C05"] += " Conservation part (c05cycle): repeated fill-to-full / delete-all cycles must write the same number of bytes every cycle and return to the same free count."
+LEVEL_TEXT["C09"] += " Also: random histories with one fault at a random device call (reference model up to the fault), and a failing std::io storage behind StdIoWrapper (the storage's own std::io::Error must come back)."
+LEVEL_TEXT["C12"] += " Fault variant (c12fault): every device-write index of scripted histories fails once and the session carries on; the raw image is compared with the mount-time image at every boundary."
+LEVEL_TEXT["C14"] += " Fault variant (c14fault): a flush that fails once at any device call and succeeds when retried must leave the file durable."
